@@ -10,7 +10,7 @@ from .. import dagsweep as D
 from .. import sweepprops as S
 
 LEVEL = 'proof'
-NEEDS = ['Bridge', 'BridgeProofs', 'Base', 'Digraph', 'DigraphProofs', 'Identify', 'IdentifyProofs', 'DSep', 'DSepProofs', 'CorrDag', 'IdentifyDSep']
+NEEDS = ['PyRt', 'IdentifyGenLemmas', 'IdentifyGenConf', 'IdentifyGenConfProofs', 'Bridge', 'BridgeProofs', 'Base', 'Digraph', 'DigraphProofs', 'Identify', 'IdentifyProofs', 'DSep', 'DSepProofs', 'CorrDag', 'IdentifyDSep']
 KNOWN = 'F12: identify_confounders is not always a sufficient adjustment set (algorithmic; call site identify_confounders, clause "sufficient adjustment set")'
 
 
